@@ -11,11 +11,13 @@
    The new archive = header ++ layer writers over the block stream repair produced ([archive_wrap] =
    Archive.archive_write from the point where the block stream is known).
    Definitions only; proofs in CliRepairProofs.v. *)
+From MLA Require Import Limit.
 From MLA Require Import Base Stream Blocks Writer Reader EncLayer CompFailSafe FsCompStream Repair Format Ecies Archive Cli Run.
 Open Scope N_scope.
 
 Section CliRepair.
   Variables CHUNK TAG CIPHERBUF BLOCK LIMIT FNMAX CACHE FSBUF : N.
+  Local Hint Extern 0 Limit => exact LIMIT : typeclass_instances.
   Variables TS TC TA TE : N.
   Variable H : bytes -> bytes.
   Variable order : footer -> footer.
@@ -56,7 +58,7 @@ Section CliRepair.
   Definition archive_wrap (cfg : wconfig) (cut_top cut_mid : list N) (blocks : bytes) : res bytes :=
     if wc_encrypt cfg && match wc_recipients cfg with [] => true | _ => false end then Err EKey else
     do hdr <- dump_header LIMIT (to_persistent pubk dh kdf wenc wtag cfg);
-    do body <- lower_write CHUNK CIPHERBUF BLOCK ksf tagf cfg cut_top cut_mid blocks;
+    do body <- lower_write CHUNK CIPHERBUF BLOCK LIMIT ksf tagf cfg cut_top cut_mid blocks;
     Ok (hdr ++ body).
 
   (* convert_to_archive over a fail-safe stack S standing at s0, then the status match of `repair` *)
